@@ -197,12 +197,12 @@ Theorem C07_decision_frame_table : forall (F : Type) (pinterp : F -> rule F) (s 
 Proof. exact decision_frame_table. Qed.
 Print Assumptions C07_decision_frame_table.
 
-(* which node asks does not matter: the node's own address (Cluster.InitSelf) is read by no
+(* which node asks does not matter: the node's own address, id, services (Cluster.InitSelf) are read by no
    decision - in particular the default rule's "instance on a node in working state"
    (C07_default) holds whether or not the asking node hosts an instance, is listed, is working *)
 Theorem C07_self_irrelevant : forall (F : Type) (interp : F -> rfn) (pinterp : F -> rule F)
-    (h : list (op F)) a o,
-  obs_at interp pinterp (h ++ [OSelf a]) o = obs_at interp pinterp h o.
+    (h : list (op F)) a i sv o,
+  obs_at interp pinterp (h ++ [OSelf a i sv]) o = obs_at interp pinterp h o.
 Proof. exact self_irrelevant. Qed.
 Print Assumptions C07_self_irrelevant.
 
@@ -399,7 +399,7 @@ Definition ex_keyed : script := SKey 1 [(1, RName 1); (2, RName 2)] (RName 0) (R
 
 Definition ex_par : list sop :=
   [OUpdate ex_view;
-   OSelf 2;
+   OSelf 2 2 [[1; 4]];
    OReg 1 (Some (SPre [AYield] ex_keyed));
    OReg 2 (Some (SPre [ACall 1 (PMap [(1, 2)]); AReg 3 (Some (SConst (RName 5))); AYield]
                       (SKey 1 [(1, RName 3); (2, RName 5)] (RName 0) (RName 0))));
